@@ -23,6 +23,6 @@ theorem InvB.pres_g3 {cfg : Cfg} {s s' : State} {l : Label} (hI : InvB s)
     kind_startupCleanup_iff, kind_coreWatch_iff] at *)
   all_goals (try subst_vars)
   all_goals (try dsimp only)
-  all_goals (grind [upd, Root.kind, TS.active, TS.live, TS.ended, TS.isStopping, watcherLike, failTS, cancelSubs, cancelRoots, Pend.ts])
+  all_goals (grind [upd, Root.kind, TS.active, TS.live, TS.ended, TS.isStopping, watcherLike, failTS, cancelSubs, cancelRoots, cancelRootsV, Pend.ts])
 
 end Kopf.C20
